@@ -250,7 +250,7 @@ def pass1 : List Seg → Int → List Seg → Option (List Seg × Int × Nat)
 
 /-- second pass: add the counts of the earlier segments of the same file -/
 def pass2 (pre : List Seg) (file : Nat) (t : Int) : Int :=
-  pre.foldl (fun acc s => if s.file = file then acc + s.count else acc) t
+  pre.foldl (fun acc s => if pass2Adds s.file file then acc + pass2Sign * s.count else acc) t
 
 def translateAbs (abs : Int) (fi : List Seg) : Option (Nat × Int) :=
   match pass1 fi abs [] with
@@ -264,12 +264,38 @@ structure Tab where
   li : List Run := []
   names : List (Nat × String) := []
   noInfo : Bool := false      -- no line_info at all
+  sizeField : Nat := 0        -- file_info[0]: size in bytes of both tables as STORED (unsigned short)
 deriving Repr
+
+/-- width of the two header words of `file_info` (they are elements of the same `unsigned short` array) -/
+def hdrMod : Nat := 2 ^ fileInfoBits
+
+/-- `epilog`: `lnoff = 2 + A_FILE_INFO.current_size / sizeof (short)` (two shorts per segment) -/
+def lnoffOf (segs : Nat) : Nat := 2 + 2 * segs
+/-- `epilog`: `lnsz = lnoff * sizeof (short) + A_LINENUMBERS.current_size` (three bytes per run) -/
+def lnszOf (segs runs : Nat) : Nat := 2 * lnoffOf segs + 3 * runs
+/-- `prog->file_info[0] = (unsigned short) lnsz` -/
+def sizeFieldOf (segs runs : Nat) : Nat := lnszOf segs runs % hdrMod
+
+/-- the walk of `find_line` WITH an end pointer `lns_end = (unsigned char *) file_info + file_info[0]` and the test
+    `if (lns >= lns_end) return 4;` after every `lns += 3` (the shape `Gen.C18.scanBounded` recognises): does it give up?
+    `allowed` = bytes between `line_info` and the end pointer (negative when the stored size has wrapped below the
+    header), `k` = runs walked so far -/
+def givesUp (allowed : Int) : List Run → Int → Int → Bool
+  | [], _, _ => false
+  | r :: rest, off, k =>
+    if scanContinues off r.len then
+      (if 3 * (k + 1) ≥ allowed then true else givesUp allowed rest (off - r.len) (k + 1))
+    else false
+
+/-- bytes between `line_info` and the end pointer computed from the stored size -/
+def Tab.allowed (t : Tab) : Int := (t.sizeField : Int) - 2 * (lnoffOf t.fi.length : Int)
 
 /-- `find_line` (after the fix: the absolute line is read as `unsigned short`) on code offset `off` -/
 def findLine (t : Tab) (off : Int) : Dec :=
   if t.noInfo then .noLine else
-  if off > t.psize then .noLine else
+  if psizeRejects off t.psize then .noLine else      -- `if (offset > (int) progp->program_size)`, transcribed (Gen)
+  if scanBounded && givesUp t.allowed t.li off 0 then .noLine else   -- end-pointer test, when the source has one (Gen)
   match findRun t.li off with
   | none => .oob
   | some r =>
@@ -410,5 +436,85 @@ deriving Repr, DecidableEq, BEq
 def errInfo (w : World) (m : Machine) : ErrInfo :=
   let fl := fileLine w m.cur
   { file := fl.1, line := fl.2, program := m.cur.prog, object := m.cur.ob, trace := svalueTrace w m }
+
+/-! ## `dump_trace`: the textual trace written to the log (blanks are printed as `~` by the harness) -/
+
+/-- text of `get_line_number (pc, prog)`: `find_line` answers 2 for `fake_prog` (program `<function>`, frames of efun
+    pointers) and the buffer stays empty; 4 is "(no line numbers)" -/
+def locText (w : World) (r : Regs) : String :=
+  match w.tab? r.prog with
+  | none => if r.prog = "<function>" then "" else "?"
+  | some t =>
+    match findLine t r.pc with
+    | .ok f l => s!"/{t.nameOf f}:{l}"
+    | .noLine => "(no~line~numbers)"
+    | .oob => "!oob"
+
+/-- the object name printed for a frame: `p[1].ob->name` for the outer frames (no NULL test: `!null` = the C code
+    dereferences NULL), `current_object ? current_object->name : "<none>"` for an innermost FRAME_FUNCTION frame,
+    `current_object->name` for the other innermost kinds -/
+def dtOb (inner : Bool) (k : Nat) (r : Regs) : String :=
+  if r.ob = "-" then (if inner ∧ k = frameFunction then "<none>" else "!null") else r.ob
+
+/-- what `dump_trace` prints in front of ` at `: `<name>()`, `(function)` (FRAME_FUNP and FRAME_FAKE), `(catch)` -/
+def dtHead (w : World) (e : CsEntry) (r : Regs) : Option String :=
+  let k := e.kind % (frameMask + 1)
+  if k = frameFunction then some (w.fnName r.prog e.tableIndex ++ "()")
+  else if k = frameFunp then some "(function)"
+  else if k = frameFake then some "(function)"
+  else if k = frameCatch then some "(catch)"
+  else none                                        -- the `switch` has no default: nothing is printed
+
+def dtTail (w : World) (inner : Bool) (e : CsEntry) (r : Regs) : String :=
+  s!"~at~{locText w r},~in~program~/{r.prog}~(object~{dtOb inner (e.kind % (frameMask + 1)) r})"
+
+/-- one line of the log: `\t<head> at <file:line>, in program /<prog> (object <ob>)` -/
+def dtLine (w : World) (inner : Bool) (e : CsEntry) (r : Regs) : Option String :=
+  (dtHead w e r).map (· ++ dtTail w inner e r)
+
+/-- `for (p = &control_stack[0]; p < csp; p++) { … p[1] … }` followed by the block for `current_prog` -/
+def dtLines (w : World) : List CsEntry → Regs → List String
+  | [], _ => []
+  | [e], cur => (dtLine w true e cur).toList
+  | e :: e' :: rest, cur => (dtLine w false e ⟨e'.prog, e'.ob, e'.pc⟩).toList ++ dtLines w (e' :: rest) cur
+
+/-- `dump_trace (0)`: the lines written (`if (current_prog == 0) return 0;`) -/
+def dumpTrace (w : World) (m : Machine) : List String :=
+  if m.cur.prog = "-" then [] else dtLines w m.cs m.cur
+
+/-- the value `dump_trace` returns: inside the loop over the OUTER frames, `if (strcmp (ftd.name, "heart_beat") == 0)
+    ret = p[1].ob ? p[1].ob->name : 0;` — the object of the frame the element opens (after the fix; it used to be
+    `p->ob`, the object register saved by the CALLER of `heart_beat`, which is NULL when the driver makes the call);
+    an innermost `heart_beat` frame is not looked at; the last match wins -/
+def dtRetGo (w : World) : List CsEntry → String → String
+  | e :: e' :: rest, acc =>
+    let acc' := if e.kind % (frameMask + 1) = frameFunction ∧ w.fnName e'.prog e.tableIndex = "heart_beat"
+                then (if e'.ob = "-" then "0" else e'.ob) else acc
+    dtRetGo w (e' :: rest) acc'
+  | _, acc => acc
+
+def dumpTraceRet (w : World) (m : Machine) : String :=
+  if m.cur.prog = "-" then "0" else dtRetGo w m.cs "0"
+
+/-- `dump_trace (DUMP_WITH_ARGS | DUMP_WITH_LOCALVARS)`: which lines follow each frame line.  `num_arg` and
+    `num_local` are variables of the whole function (initially -1): FRAME_FUNCTION and FRAME_FUNP set both,
+    FRAME_FAKE and FRAME_CATCH reset `num_arg` only; "arguments:" is printed when `num_arg != -1`, "local variables:"
+    when `num_local > 0 && num_arg != -1`.  Input per frame: kind and the counts the frame would supply. -/
+def dtaGo : List (Nat × Int × Int) → Int × Int → List String
+  | [], _ => []
+  | (kind, na, nl) :: rest, (pa, pl) =>
+    let k := kind % (frameMask + 1)
+    let st : Option (Int × Int) :=
+      if k = frameFunction then some (na, nl) else if k = frameFunp then some (na, nl)
+      else if k = frameFake then some (-1, pl) else if k = frameCatch then some (-1, pl) else none
+    match st with
+    | none =>                               -- no frame line; the two blocks below still look at the stale counters
+      ((if pa ≠ -1 then "A" else "") ++ (if pl > 0 ∧ pa ≠ -1 then "L" else "")) :: dtaGo rest (pa, pl)
+    | some (a, l) =>
+      ("F" ++ (if a ≠ -1 then "A" else "") ++ (if l > 0 ∧ a ≠ -1 then "L" else "")) :: dtaGo rest (a, l)
+
+def dumpTraceArgs (m : Machine) (counts : List (Int × Int)) : List String :=
+  if m.cur.prog = "-" then [] else
+  dtaGo ((m.cs.zip counts).map fun (e, c) => (e.kind, c.1, c.2)) (-1, -1)
 
 end NV.C18
